@@ -182,6 +182,12 @@ func (g *G) Plugins() (pipeline.Plugins, map[string]string) {
 		}
 		ps = append(ps, &pipeline.Plugin{Source: s.Text, Config: cfg})
 	}
+	// the same plugin a second time (same source, letter for letter) with a config of its own, e.g. two
+	// registries for one login plugin: two entries of the list, both content
+	if len(ps) > 0 && g.intn("repeatplugin", 0, 5) == 0 {
+		first := ps[g.intn("repeatwhich", 0, len(ps)-1)]
+		ps = append(ps, &pipeline.Plugin{Source: first.Source, Config: map[string]any{"second-use": g.Str("repeatcfg"), "n": len(ps)}})
+	}
 	return ps, canon
 }
 
@@ -195,8 +201,12 @@ func (g *G) Matrix() *pipeline.Matrix {
 	case 3:
 		return &pipeline.Matrix{}
 	case 4:
-		// simple list
-		return &pipeline.Matrix{Setup: pipeline.MatrixSetup{"": g.strList("mv", 1, 3)}}
+		// simple list - which stops being "simple" as soon as the matrix carries anything else
+		m := &pipeline.Matrix{Setup: pipeline.MatrixSetup{"": g.strList("mv", 1, 3)}}
+		if g.intn("anonextras", 0, 3) == 0 {
+			m.RemainingFields = map[string]any{"extra": g.Value("anonextra", 1)}
+		}
+		return m
 	}
 	if g.intn("nodims", 0, 7) == 0 {
 		// a matrix without dimensions that is not empty: adjustments that name no dimension, extras
@@ -242,7 +252,9 @@ func (g *G) Matrix() *pipeline.Matrix {
 
 func (g *G) strList(label string, lo, hi int) []string {
 	n := g.intn(label+"n", lo, hi)
-	l := make([]string, 0, n)
+	// spare capacity now and then (slices built with append have it): an append through a copy of the
+	// slice header then writes into the same backing array
+	l := make([]string, 0, n+g.intn(label+"spare", 0, 3))
 	for i := 0; i < n; i++ {
 		l = append(l, g.Str(label))
 	}
